@@ -148,6 +148,8 @@ Eval(e, env) ==
                           IF IsErr(x) \/ IsErr(y) THEN Err ELSE IF Comparable(x, y) THEN (IF VLess(x, y) THEN y ELSE x) ELSE Err
       [] e[1] = "bsum" -> LET x == Eval(e[2], env) y == Eval(e[3], env) IN                       \* sum([x, y])
                           IF IsErr(x) \/ IsErr(y) THEN Err ELSE IF IsNum(x) /\ IsNum(y) THEN NAdd(x, y) ELSE Err
+      [] e[1] = "udf" -> LET x == Eval(e[2], env) IN                                          \* udf(x) = x + "u", defined by the user's init code
+                         IF IsErr(x) THEN Err ELSE IF x[1] = "s" THEN Str(x[2] \o <<117>>) ELSE Err
       [] e[1] = "poison" -> LET x == Eval(e[2], env) IN                                        \* raises iff the value is the poison string e[3]
                             IF IsErr(x) THEN Err ELSE IF x[1] = "s" /\ x[2] = e[3] THEN Err ELSE x
       [] OTHER -> Err
